@@ -389,7 +389,7 @@ class C09(Prop):
     props_file = 'Props/C09.v'
     imports = ['Model.Timers', 'Model.TimersObs']
     quick_n = 300
-    thorough_n = 6000
+    thorough_n = 4000
     rule = ('programs over the real Manager loop on a virtual clock: 0-5 timers (intervals from a dyadic grid incl. 0 and '
             'equal values, one-shot / persistent, relative or datetime deadline) created, reset and unregistered by '
             'scripted ordinary events, by handlers of timer events and by one generator task (yield / sleep), external '
